@@ -56,7 +56,7 @@ func structuredPointInput(t *rapid.T, gi *GroupInfo, valid []byte) ([]byte, stri
 		out := append([]byte(nil), valid...)
 		ci := rapid.IntRange(0, coords-1).Draw(t, "coord")
 		lo, hi := off+ci*clen, off+(ci+1)*clen
-		kind := rapid.SampledFrom([]string{"=p", "p+k", "p-1", "zero", "+1", "-1", "max"}).Draw(t, "edit")
+		kind := rapid.SampledFrom([]string{"=p", "p+k", "p-1", "zero", "+1", "-1", "max", "+p", "+p"}).Draw(t, "edit")
 		v := new(big.Int).SetBytes(out[lo:hi])
 		switch kind {
 		case "=p":
@@ -75,6 +75,16 @@ func structuredPointInput(t *rapid.T, gi *GroupInfo, valid []byte) ([]byte, stri
 			}
 		case "max":
 			v.Sub(pow2(8*clen), big1)
+		case "+p":
+			// the same residue, not reduced: a second encoding of the SAME valid point if it fits in the
+			// coordinate's bytes (it must be refused: accepted, it is stored unreduced or is a second
+			// accepted encoding)
+			if w := new(big.Int).Add(v, p); w.BitLen() <= 8*clen {
+				v = w
+			} else {
+				kind = "+p(does not fit)->p+k"
+				v.Add(p, big.NewInt(int64(rapid.IntRange(1, 40).Draw(t, "k2"))))
+			}
 		}
 		if v.BitLen() > 8*clen {
 			v.Sub(pow2(8*clen), big1)
@@ -132,6 +142,23 @@ func structuredPointInput(t *rapid.T, gi *GroupInfo, valid []byte) ([]byte, stri
 			out[32] = rapid.SampledFrom([]byte{0, 1, 2}).Draw(t, "x")
 			out[64] = rapid.SampledFrom([]byte{0, 1, 2}).Draw(t, "y")
 			return out, "tinycoords"
+		}
+		if rapid.IntRange(0, 3).Draw(t, "smallx") == 0 {
+			// a curve point with a small x (x + p still fits in 32 bytes), encoded with x + p
+			c := modelP256
+			for x := int64(rapid.IntRange(1, 400).Draw(t, "x0")); ; x++ {
+				bx := big.NewInt(x)
+				if y := fsqrt(c.rhs(bx), c.P); y != nil {
+					if rapid.Bool().Draw(t, "yneg") {
+						y = fneg(y, c.P)
+					}
+					out := make([]byte, 65)
+					out[0] = 4
+					copy(out[1:33], bigToBytes(new(big.Int).Add(bx, c.P), 32, false))
+					copy(out[33:], bigToBytes(y, 32, false))
+					return out, "small-x+p"
+				}
+			}
 		}
 		return fieldEdit(modelP256.P, 2, 32, 1)
 	case gi.Family == "bn256" || gi.Family == "bn254":
